@@ -326,6 +326,51 @@ def register(M):
     B['same_list'] = b_same_list
     B['same_path_set'] = lambda args, kw, st, node: True
 
+    # ---- user callables (ANM assignments / noise distributions): ghost call log as uninterpreted functions of the variable index
+    ARGN = z3.Function('call_ncols', z3.IntSort(), z3.IntSort())
+    ARGCOL = z3.Function('call_col', z3.IntSort(), z3.IntSort(), z3.IntSort())
+    ARGV = z3.Function('call_arg', z3.IntSort(), z3.IntSort(), z3.IntSort(), z3.RealSort())
+    RET = z3.Function('call_ret', z3.IntSort(), z3.IntSort(), z3.RealSort())
+    DRAWV = z3.Function('draw', z3.IntSort(), z3.IntSort(), z3.IntSort(), z3.RealSort())
+    ROLE = {'noise': 0, 'do': 1, 'shift': 2, 'newnoise': 3}
+
+    def call_user_callable(f, args, kw, st, node):
+        idx = Z(num(f.index))
+        key = (f.role, str(idx))
+        called = st.ghost.get('uf_called', ())
+        ex.oblige(st, 'single-call', key not in called, node, text='the %s callable of a variable is invoked at most once per pass' % f.role)
+        st.ghost['uf_called'] = tuple(called) + (key,)
+        ex.use('A-CALLABLE:user callables are opaque; the k-th variable\'s %s callable is logged as ghost functions of k (argument, column map, return value / draw)' % f.role)
+        if f.role == 'assign':
+            a = M.as_arr(st, args[0])
+            if a.ndim != 2:
+                raise Unsupported('assignment called with a non-matrix')
+            n, m = a.shape
+            r, c = bvar('r'), bvar('c')
+            st.assume(ARGN(idx) == Z(m))
+            st.assume(forall([r, c], IMPLIES(AND(in_range(r, 0, n), in_range(c, 0, m)), ARGV(idx, r, c) == to_real(Z(num(a.get(r, c)))))))
+            cols = st.ghost.get('mask_cols', {}).get(id(a.get))
+            if cols is not None:
+                st.assume(forall([c], IMPLIES(in_range(c, 0, m), ARGCOL(idx, c) == Z(cols.get(c)))))
+            else:
+                ex.oblige(st, 'assign-arg-is-parent-selection', False, node, text='the assignment receives X[:, <boolean parent mask>]')
+            shape = st.ghost.get('assign_shape', 'vec')
+            if shape == 'scalar':
+                return RET(idx, z3.IntVal(0))
+            if shape == 'col':
+                return st.alloc(SArr((n, 1), lambda rr, cc: RET(idx, Z(rr)), 'float'))
+            return st.alloc(SArr((n,), lambda rr: RET(idx, Z(rr)), 'float'))
+        if f.role in ROLE:
+            n = num(args[0])
+            return st.alloc(SArr((n,), lambda rr, k=ROLE[f.role]: DRAWV(z3.IntVal(k), idx, Z(rr)), 'float'))
+        raise Unsupported('callable role ' + f.role)
+    M.call_user_callable = call_user_callable
+    B['call_ncols'] = lambda args, kw, st, node: ARGN(Z(num(args[0])))
+    B['call_col'] = lambda args, kw, st, node: ARGCOL(Z(num(args[0])), Z(num(args[1])))
+    B['call_arg'] = lambda args, kw, st, node: ARGV(Z(num(args[0])), Z(num(args[1])), Z(num(args[2])))
+    B['call_ret'] = lambda args, kw, st, node: RET(Z(num(args[0])), Z(num(args[1])) if st.ghost.get('assign_shape', 'vec') != 'scalar' else z3.IntVal(0))
+    B['draw'] = lambda args, kw, st, node: DRAWV(z3.IntVal(ROLE[args[0]]), Z(num(args[1])), Z(num(args[2])))
+
     def b_is_ndarray(args, kw, st, node):
         return isinstance(st.deref(args[0]), SArr)
     B['is_ndarray'] = b_is_ndarray
